@@ -23,7 +23,7 @@ for w in (32, 64):
             what="value exactness base 10 by Horner re-evaluation, bounded range"))
     JOBS.append(dict(name="fmt.wrappers.w%d" % w, props=["C14", "C15"], kind="PU", bound="as above",
             harness="h_fmt.c", entry="h_fmt_wrappers", contracts=["common.h"], defines=["W=%d" % w], loops=False,
-            cbmc_flags=_u(w), timeout=1800, cost=10, tier="quick" if w == 32 else "thorough", what="public wrappers delegate with the right sign flag / base"))
+            cbmc_flags=_u(w), timeout=3000, cost=10, tier="thorough", what="public wrappers delegate with the right sign flag / base"))
 for fn, w in (("UInt32ToStrBaseSign", 32), ("UInt64ToStrBaseSign", 64), ("SCPI_UInt32ToStrBase", 32)):
     JOBS.append(dict(name="fmt.contract." + fn, props=["C14", "C15", "C06", "C17", "C01"], kind="PU",
         bound="digit loops unwound %d with unwinding assertions (complete)" % (w + 4),
@@ -33,5 +33,5 @@ for fn, w in (("UInt32ToStrBaseSign", 32), ("UInt64ToStrBaseSign", 64), ("SCPI_U
 
 for w in (32, 64):
     JOBS.append(dict(name="fmt.sign.w%d" % w, props=["C14", "C07"], kind="PU", bound="digit loops unwound %d with unwinding assertions (complete), all values/bases/sign flags" % (w + 4),
-        harness="h_fmt.c", entry="h_fmt_sign", contracts=["common.h"], defines=["W=%d" % w, "FIXBASE=10"], loops=False, cbmc_flags=_u(w), timeout=1800, cost=15,
+        harness="h_fmt.c", entry="h_fmt_sign", contracts=["common.h"], defines=["W=%d" % w, "FIXBASE=10"], loops=False, cbmc_flags=_u(w), timeout=3000, cost=15, tier="quick" if w == 32 else "thorough",
         what="sign character rule over the full domain (base 10)"))
